@@ -31,12 +31,13 @@ func (c *Builder) Emit(opcode Opcode, line int) {
 
 // EmitJump adds a jump opcode, jumping to the given label.  The offset part of
 // the opcode must be left as 0, it will be filled by the builder when the
-// location of the label is known.
+// location of the label is known.  If the label is too far for the jump to be
+// encoded, it panics with a *LimitError.
 func (c *Builder) EmitJump(opcode Opcode, lbl Label, line int) {
 	jumpToAddr, ok := c.jumpTo[lbl]
 	addr := len(c.code)
 	if ok {
-		opcode = opcode.SetOffset(Offset(jumpToAddr - addr))
+		opcode = opcode.SetOffset(OffsetFromInt(jumpToAddr - addr))
 	} else {
 		c.jumpFrom[lbl] = append(c.jumpFrom[lbl], addr)
 	}
@@ -44,7 +45,8 @@ func (c *Builder) EmitJump(opcode Opcode, lbl Label, line int) {
 }
 
 // EmitLabel adds a label for the current location.  It panics if called twice
-// with the same label at different locations.
+// with the same label at different locations.  It panics with a *LimitError if
+// an opcode jumping to this label is too far for the jump to be encoded.
 func (c *Builder) EmitLabel(lbl Label) {
 	addr := len(c.code)
 	if lblAddr, ok := c.jumpTo[lbl]; ok && lblAddr != addr {
@@ -52,7 +54,7 @@ func (c *Builder) EmitLabel(lbl Label) {
 	}
 	c.jumpTo[lbl] = addr
 	for _, jumpFromAddr := range c.jumpFrom[lbl] {
-		c.code[jumpFromAddr] = c.code[jumpFromAddr].SetOffset(Offset(addr - jumpFromAddr))
+		c.code[jumpFromAddr] = c.code[jumpFromAddr].SetOffset(OffsetFromInt(addr - jumpFromAddr))
 	}
 	delete(c.jumpFrom, lbl)
 }
